@@ -2,106 +2,116 @@
 import re, itertools
 from core import *  # noqa
 from roles import *  # noqa
-import roles, shared, symex
+import roles, shared, symex, inline, absint
+import queue_rules as Q
+import parser_rules as PR
+import server_rules as S
 
 EXPLANATION = (
-    "Decision-table extraction and census on MIR: the keep-alive decision of ClientConnection::next is walked for every assignment of the "
-    "atoms {Connection header present, contains close / upgrade / keep-alive, version == 1.0} and compared with the table of the property "
-    "(DESIGN A.5); the haystack is the ASCII-lowercased Connection value; the last-request flag gates every read and is never reset; the two "
-    "halves of the socket are built with (close_read, close_write) = (true,false)/(false,true) and the destructor shuts down exactly the "
-    "flagged direction; shutdown/leak census: the write half dies (flush + shutdown(Write)) exactly when the builder and every handed-out "
-    "writer are gone; a clean EOF between requests ends the parser silently.")
-TRUSTED = ["rustc MIR", "str::contains / to_ascii_lowercase semantics", "BufWriter flushes in its Drop", "the peer's TCP stack shows FIN as end-of-stream"]
+    "Decision-table extraction by abstract path exploration, and census, on MIR (functions analysed with the helpers of their file and small std "
+    "combinators spliced in, so the spelling of the code does not matter): for every assignment of {Connection header present, contains close / upgrade / "
+    "keep-alive, version 0.9 / 1.0 / 1.1} the paths of ClientConnection::next from `read returned a request` to `return Some(request)` that are compatible "
+    "with the assignment all set the last-request flag exactly as the property's table says (DESIGN A.5); the haystack is the ASCII-lowercased Connection "
+    "value; with the flag set next() returns None without touching the socket, and the flag is never reset; the two halves of the socket shut down reading "
+    "resp. writing in their destructor (symbolic evaluation of the constructor's result through the destructor, independent of how the halves remember their "
+    "direction); shutdown/leak census; end of stream while reading a head makes the parser stop silently.")
+TRUSTED = ["rustc MIR", "str::contains / to_ascii_lowercase semantics", "BufWriter flushes in its Drop", "the peer's TCP stack shows FIN as end-of-stream",
+           "HTTPVersion ordering is lexicographic (C05.2)"]
+
+VERSIONS = [(0, 9), (1, 0), (1, 1)]
+TOKENS = ["close", "upgrade", "keep-alive"]
 
 
 def run(ctx):
     facts = ctx.facts
     roles.bind(facts)
-    f = cc_next = method(facts, T_ITER, CC, "next")
-    cc_read = roles.inherent(facts, CC, "read")
-    cc_new = roles.inherent(facts, CC, "new")
+    PM = PR.pmodel(facts)
+    f = PM.nxt
     ctx.touch(f)
-    FLAG = "no_more_requests"
+    FLAG = PM.flag
 
     # ---- C12.1 keep-alive decision table
-    some_bbs = {bb for bb, i, s in f.assigns() if s["lhs"] == {"l": 0, "p": []} and s["rhs"]["rv"] == "agg" and s["rhs"].get("variant") == "Some"}
-    ctx.require(len(some_bbs) == 1, "C12.1: expected one `return Some(rq)` site")
-    atoms = {}
-    lower_local = None
-    for bb, t in f.calls():
-        if call_matches(t, r"<impl str>::contains") and t.get("target") is not None:
-            lits = [c for c in arg_consts(f, t) if isinstance(c, str)]
-            bs = bool_switch(f, t["target"])
-            if lits and bs and op_local(bs[0]) == t["dest"]["l"]:
-                recv = f.origin(t["args"][0])
-                atoms[t["target"]] = ("contains:" + lits[0], {True: bs[1], False: bs[2]}, recv, bb)
-        if call_matches(t, r"<common::HTTPVersion as std::cmp::PartialEq(<\(u8, u8\)>)?>::(eq|ne)$") and t.get("target") is not None:
-            bs = bool_switch(f, t["target"])
-            if bs and op_local(bs[0]) == t["dest"]["l"]:
-                c = [shared.const_of_origin(f, f.origin(a)) for a in t["args"]]
-                consts = [shared.sym_const(x[1]) for x in c if x and x[0] == "promoted"]
-                isv = any(origin_has_call(f.origin(a), r"Request::http_version$") for a in t["args"])
-                if isv and consts:
-                    val = consts[0]
-                    tup = val[2] if isinstance(val, tuple) and len(val) == 3 and val[0] == HV else val
-                    neg = t["name"] == "ne"
-                    atoms[t["target"]] = ("version==%s" % (tup,), {(not neg): bs[1], neg: bs[2]}, None, bb)
-    opt_sw = None
-    for bb in sorted(f.live_blocks()):
-        sw = switch_on_discr(f, bb)
-        if sw and sw[0].get("adt") == "std::option::Option" and not f.blocks[bb]["cleanup"]:
-            o = f.origin_place(sw[0]["pl"])
-            if origin_has_call(o, r"to_ascii_lowercase|to_lowercase") or any(x[0] == "agg" and "next::{closure" in str(x[1]) for x in origin_walk(o)):
-                rv, m, otherwise, rest = sw
-                if any(sb in f.reach([bb], unwind=False) for sb in some_bbs):
-                    opt_sw = (bb, m, otherwise, rest, o)
-                    break
-    ctx.require(opt_sw is not None, "C12.1: the match on the lowercased Connection header was not found")
-    obb, m, otherwise, rest, oorigin = opt_sw
-    atoms[obb] = ("present", {True: m.get("Some", otherwise if "Some" in rest else None), False: m.get("None", otherwise if "None" in rest else None)}, None, obb)
-    names = sorted({a[0] for a in atoms.values()})
+    paths = [p for p in PM.after_read(PR.Ok_(PR.RQ)) if p.end[0] not in ("diverge", "resume", "terminate", "unreachable")]
+    ctx.paths += len(paths)
+    delivered = [p for p in paths if p.end[0] == "return" and p.ret() == ("some", PR.RQ)]
+    ctx.ob("C12.1", "%s|delivers" % PM.cc_next.id, "a request that was read can be returned to the caller", bool(delivered), "%s:%d" % (f.file, f.line))
+    atoms_seen = set()
+    hay_ok = True
+    lookup_ok = True
+    pconds = []
+    for p in paths:
+        cs = []
+        for bb, c in p.conds:
+            a = PR.atom_of_cond(c)
+            if a is None:
+                continue
+            (atom, val) = a
+            if atom[0] == "contains":
+                atoms_seen.add(("contains", atom[1]))
+                hay = atom[2][2][0]
+                calls = absint.calls_in(hay)
+                if not any(re.search(r"to_ascii_lowercase$|to_lowercase$", x[1]) for x in calls):
+                    hay_ok = False
+                cs.append((("contains", atom[1]), val))
+            elif atom[0] == "version":
+                atoms_seen.add(("version",) + atom[1:3])
+                cs.append((atom[:4], val))
+            elif atom[0] == "lookup":
+                if "Connection" in atom[1]:
+                    atoms_seen.add(("present",))
+                    cs.append((("present",), val))
+                    if [x for x in atom[1] if x.lower() != "connection"]:
+                        lookup_ok = False
+        pconds.append((p, cs))
+    names = sorted(str(a) for a in atoms_seen)
     ctx.counts["C12.1 atoms"] = names
-    need = {"present", "contains:close", "contains:upgrade", "contains:keep-alive", "version==(1, 0)"}
-    ctx.ob("C12.1", "%s|atoms" % f.id, "the decision consults exactly: header present, close, upgrade, keep-alive, version 1.0", set(names) == need, f.loc(obb), str(names))
-    # provenance of the haystack: lowercased value of the header named Connection
-    lower_ok = True
-    for k, a in atoms.items():
-        if a[2] is not None:
-            if not origin_has_call(a[2], r"Option::<T>::map") and not any(x[0] == "downcast" for x in origin_walk(a[2])):
-                lower_ok = False
-    cl = [g for g in facts.find_fns(r"ClientConnection as std::iter::Iterator>::next::\{closure") if g.call_blocks(lambda t: call_matches(t, r"to_ascii_lowercase$"))]
-    eqv = []
-    for g in facts.find_fns(r"ClientConnection as std::iter::Iterator>::next::\{closure"):
-        for bb, t in g.calls():
-            if call_matches(t, r"HeaderField::equiv$"):
-                eqv += [c for c in arg_consts(g, t) if isinstance(c, str)]
-    ctx.ob("C12.1", "%s|haystack" % f.id, "the tokens are searched in the ASCII-lowercased value of the `Connection` header", lower_ok and bool(cl) and eqv == ["Connection"], f.loc(obb), "lookup=%s" % eqv)
-    if set(names) == need:
-        def atom_of(bb):
-            a = atoms.get(bb)
-            return (a[0], a[1]) if a else None
-        bad = []
-        rows = 0
-        for vals in itertools.product([False, True], repeat=5):
-            asg = dict(zip(["present", "contains:close", "contains:upgrade", "contains:keep-alive", "version==(1, 0)"], vals))
-            setflag = []
-            def on_block(bb):
-                for s in f.stmts(bb):
-                    if s["s"] == "assign" and pl_fields(s["lhs"]) == [FLAG]:
-                        setflag.append(op_const(s["rhs"]["op"]) if s["rhs"]["rv"] == "use" else "?")
-            end, visited = shared.walk_decision(f, obb, atom_of, asg, some_bbs, on_block)
-            rows += 1
-            ctx.paths += 1
-            got = (setflag == [True]) if setflag else False
-            if setflag and setflag != [True]:
-                got = "?"
-            p, c, u, k, v10 = vals
-            want = (c or u or ((not k) and v10)) if p else v10
-            if end is None or got != want:
-                bad.append((asg, got, want))
-        ctx.ob("C12.1", "%s|table" % f.id, "for all 32 combinations of the atoms the request is marked last exactly when: close; upgrade; HTTP/1.0 without keep-alive; HTTP/1.0 without a Connection header",
-               not bad, f.loc(obb), None if not bad else "first mismatches: %s" % bad[:3])
-        ctx.counts["C12.1 table rows"] = rows
+    need = {("present",)} | {("contains", t) for t in TOKENS}
+    ctx.ob("C12.1", "%s|atoms" % PM.cc_next.id, "the decision consults: Connection header present, close, upgrade, keep-alive (and the version)", need <= atoms_seen and any(a[0] == "version" for a in atoms_seen),
+           "%s:%d" % (f.file, f.line), str(names))
+    extra = {a for a in atoms_seen if a[0] == "contains" and a[1] not in TOKENS}
+    ctx.ob("C12.1", "%s|haystack" % PM.cc_next.id, "the tokens are searched in the ASCII-lowercased value of the `Connection` header, and only lower-case tokens are searched for",
+           hay_ok and lookup_ok and not extra, "%s:%d" % (f.file, f.line), None if not extra else "unexpected tokens %s" % sorted(extra))
+
+    def holds(atom, val, A):
+        if atom[0] == "present":
+            want = A["present"]
+        elif atom[0] == "contains":
+            if not A["present"] or atom[1] not in A:
+                return None
+            want = A[atom[1]]
+        elif atom[0] == "version":
+            op, k, const_lhs = atom[1], atom[2], atom[3]
+            want = PR.CMP[op](k, A["version"]) if const_lhs else PR.CMP[op](A["version"], k)
+        else:
+            return None
+        return want == val
+
+    bad = []
+    rows = 0
+    for present in (False, True):
+        for toks in itertools.product([False, True], repeat=3):
+            if not present and any(toks):
+                continue
+            for ver in VERSIONS:
+                A = {"present": present, "version": ver}
+                A.update(dict(zip(TOKENS, toks)))
+                rows += 1
+                comp = [p for p, cs in pconds if all(holds(a, v, A) is not False for a, v in cs)]
+                c, u, k = toks
+                v10 = ver == (1, 0)
+                want = (c or u or ((not k) and v10)) if present else v10
+                got = []
+                for p in comp:
+                    if not (p.end[0] == "return" and p.ret() == ("some", PR.RQ)):
+                        got.append("not delivered (%s)" % Q._ret_str(p))
+                    else:
+                        fs = PM.flag_set(p)
+                        got.append(bool(fs) if fs in (True, False, None) else "?")
+                if not comp or any(g != want for g in got):
+                    bad.append((dict(A), got[:3], want))
+    ctx.counts["C12.1 table rows"] = rows
+    ctx.ob("C12.1", "%s|table" % PM.cc_next.id, "for every combination of the atoms and versions 0.9/1.0/1.1 the request is delivered and marked last exactly when: close; upgrade; HTTP/1.0 without keep-alive; HTTP/1.0 without a Connection header",
+           not bad, "%s:%d" % (f.file, f.line), None if not bad else "first mismatches: %s" % bad[:3])
 
     # ---- C12.2 the flag gates every read and is never reset
     n = 0
@@ -110,87 +120,29 @@ def run(ctx):
         if kind == "construct":
             r = x["rhs"]
             c = op_const(r["ops"][r["fields"].index(FLAG)])
-            ctx.ob("C12.2", "flag-init|%s" % g.id, "a new connection starts with the flag clear", g.id == cc_new.id and c is False, g.loc(bb))
+            ctx.ob("C12.2", "flag-init|%s" % g.id, "a new connection starts with the flag clear", c is False, g.loc(bb))
         else:
             c = op_const(x["rhs"]["op"]) if kind == "assign" and x["rhs"]["rv"] == "use" else None
-            ctx.ob("C12.2", "flag-write|%s" % g.id, "the flag is only ever set (never reset), and only by the persistence decision", g.id == f.id and c is True, g.loc(bb))
-    ctx.floor("C12.2 flag writes", n, 3)
-    gates = []
-    for bb in sorted(f.live_blocks()):
-        bs = bool_switch(f, bb)
-        if bs and FLAG in origin_fields(f.origin(bs[0])):
-            gates.append((bb, bs))
-    ctx.require(gates, "C12.2: next() does not test the flag")
-    reads = f.call_blocks(lambda t: call_is(t, cc_read.id))
-    gb, gbs = gates[0]
-    ok = all(f.dominates(gbs[2], r, unwind=False) for r in reads) and gbs[1] != gbs[2]
-    ctx.ob("C12.2", "%s|gate-dominates-read" % f.id, "no request is read once the flag is set", ok, f.loc(gb))
-    outs = shared.eval_from(f, gbs[1])
-    ok = bool(outs) and all(st.read_key((0,)) == ("none",) for p, st in outs) and not (f.reach([gbs[1]], unwind=False) & set(reads))
-    ctx.ob("C12.2", "%s|flag-set-returns-none" % f.id, "with the flag set, next() returns None without touching the socket", ok, f.loc(gbs[1]))
-    ctx.ob("C12.2", "%s|gate-at-entry" % f.id, "the flag test is the first thing next() does (every call is gated)", f.dominates(gb, reads[0], unwind=False) and gb in f.reach([0], blocked=set(reads), unwind=False), f.loc(gb))
+            ctx.ob("C12.2", "flag-write|%s" % g.id, "the flag is only ever set (never reset), and only by the connection parser", g.file == PM.file and c is True, g.loc(bb))
+    ctx.floor("C12.2 flag writes", n, 2)
+    st = symex.Sym(f)
+    st.write_key((1, "*", "." + FLAG), ("const", True, "true", None))
+    gp = [p for p in absint.explore(f, 0, st) if p.end[0] not in ("diverge", "resume", "terminate", "unreachable")]
+    io = []
+    for p in gp:
+        for e in p.events:
+            if e[1] == "call" and (e[2] == PM.read_def or (facts.effects_at(f, e[0]) & {"BLOCK-IO", "WAIT-TURN-R", "WAIT-TURN-W", "CHAN-RECV"})):
+                io.append(short(e[2]))
+    ok = bool(gp) and all(p.end[0] == "return" and p.ret() == ("none",) for p in gp) and not io
+    ctx.ob("C12.2", "%s|flag-set-returns-none" % PM.cc_next.id, "with the flag set, next() returns None without touching the socket (every call is gated)", ok, "%s:%d" % (f.file, f.line),
+           None if ok else "%s %s" % ([Q._ret_str(p) for p in gp][:3], io[:3]))
+    st = symex.Sym(f)
+    st.write_key((1, "*", "." + FLAG), ("const", False, "false", None))
+    gp = absint.explore(f, 0, st, stop=lambda bb, t, s: "read" if t["t"] == "call" and call_name(t) == PM.read_def else None)
+    ctx.ob("C12.2", "%s|flag-clear-reads" % PM.cc_next.id, "with the flag clear, next() goes on to read a request", any(p.end[0] == "stop" for p in gp), "%s:%d" % (f.file, f.line))
 
-    # ---- C12.3 half-close flags
-    rnew = roles.inherent(facts, RTS, "new")
-    rdrop = method(facts, T_DROP, RTS, "drop")
-    ctx.touch(rnew); ctx.touch(rdrop)
-    cons = [(bb, s) for g, bb, s in facts.constructions(RTS) if g.id == rnew.id]
-    others = [(g, bb) for g, bb, s in facts.constructions(RTS) if g.id != rnew.id]
-    for g, bb in others:
-        ctx.ob("C12.3", "rts-construct|%s" % g.id, "socket halves are built only by RefinedTcpStream::new", False, g.loc(bb))
-    flags = []
-    for bb, s in cons:
-        r = s["rhs"]
-        flags.append((op_const(r["ops"][r["fields"].index("close_read")]), op_const(r["ops"][r["fields"].index("close_write")]), s["lhs"]["l"]))
-    ctx.ob("C12.3", "%s|two-halves" % rnew.id, "one half closes reading only, the other writing only", sorted((a, b) for a, b, _ in flags) == [(False, True), (True, False)], "%s:%d" % (rnew.file, rnew.line), str(flags))
-    # which one is returned first (read half) / second (write half)
-    paths = symex.enumerate_paths(rnew)
-    if len(paths) == 1:
-        st = symex.run_path(rnew, paths[0])
-        ret = st.read_key((0,))
-        ok = ret[0] == "tuple" and len(ret[1]) == 2 and all(x[0] == "agg" for x in ret[1])
-        if ok:
-            a, b = ret[1]
-            ok = a[3]["close_read"][1] is True and a[3]["close_write"][1] is False and b[3]["close_read"][1] is False and b[3]["close_write"][1] is True
-        ctx.ob("C12.3", "%s|order" % rnew.id, "new() returns (read half, write half)", ok, "%s:%d" % (rnew.file, rnew.line))
-    # ClientConnection::new(write, read): the write half goes into the BufWriter/sink, the read half into the BufReader/source
-    acc = facts.find_fns(r"^Server::from_listener::\{closure#0\}$")[0]
-    for bb, t in acc.calls():
-        if call_is(t, cc_new.id):
-            o0, o1 = acc.origin(t["args"][0]), acc.origin(t["args"][1])
-            s0, s1 = origin_str(o0), origin_str(o1)
-            ok = (".1" in s0 and ".0" in s1) or (origin_fields(o0) == {"1"} and origin_fields(o1) == {"0"})
-            ctx.ob("C12.3", "%s|halves-to-connection" % acc.id, "the connection gets the write half as its writer and the read half as its reader", ok, acc.loc(bb), "%s / %s" % (s0, s1))
-    bw = [(bb, t) for bb, t in cc_new.calls() if call_matches(t, r"BufWriter::<W>::with_capacity$|BufWriter::<W>::new$")]
-    br = [(bb, t) for bb, t in cc_new.calls() if call_matches(t, r"BufReader::<R>::with_capacity$|BufReader::<R>::new$")]
-    ok = len(bw) == 1 and len(br) == 1 and any(x == ("arg", 1) for x in origin_walk(cc_new.origin(bw[0][1]["args"][-1]))) and any(x == ("arg", 2) for x in origin_walk(cc_new.origin(br[0][1]["args"][-1])))
-    ctx.ob("C12.3", "%s|writer-is-first-arg" % cc_new.id, "ClientConnection::new wraps its first argument as the writer and its second as the reader", ok, "%s:%d" % (cc_new.file, cc_new.line))
-    # Drop: shutdown(Read) iff close_read, shutdown(Write) iff close_write
-    g = rdrop
-    sd = [(bb, t) for bb, t in g.calls() if call_matches(t, r"Stream::shutdown$")]
-    ctx.floor("C12.3 shutdown calls in RefinedTcpStream::drop", len(sd), 2)
-    seen = {}
-    for bb, t in sd:
-        how = g.origin(t["args"][1])
-        hv = how[4] if how[0] == "agg" else None
-        dom = g.dominators(False)
-        guard = None
-        for b in sorted(dom[bb], key=lambda b: -len(dom[b])):
-            bs = bool_switch(g, b)
-            if bs and g.dominates(bs[1], bb, unwind=False) and bs[1] != bs[2]:
-                fl = origin_fields(g.origin(bs[0]))
-                guard = sorted(fl)
-                break
-        seen[hv] = guard
-    ok = seen.get("Read") == ["close_read"] and seen.get("Write") == ["close_write"] and "Both" not in seen
-    ctx.ob("C12.3", "%s|shutdown-matches-flags" % g.id, "the destructor shuts down reading iff close_read and writing iff close_write", ok, "%s:%d" % (g.file, g.line), str(seen))
-    # shutdown census
-    allowed = {rdrop.id, roles.inherent(facts, STREAM, "shutdown").id, "connection::Connection::shutdown", method(facts, T_DROP, SERVER, "drop").id}
-    n = 0
-    for h, bb, t in facts.all_calls(lambda t: t.get("name") == "shutdown"):
-        n += 1
-        ctx.ob("C12.3", "shutdown-site|%s" % h.id, "sockets are shut down only by the halves' destructor (and Server::drop's throw-away self-connection)", h.id in allowed, h.loc(bb))
-    ctx.floor("C12.3 shutdown call sites", n, 4)
+    # ---- C12.3 half-close
+    half_rules(ctx)
 
     # ---- C12.4 nothing is leaked
     leak = re.compile(r"^(std::mem::forget|std::mem::ManuallyDrop::<T>::new|std::boxed::Box::<T(, A)?>::(leak|into_raw)|std::sync::Arc::<T(, A)?>::(into_raw|increment_strong_count)|std::rc::Rc::<T(, A)?>::into_raw|std::vec::Vec::<T(, A)?>::leak)$")
@@ -202,15 +154,141 @@ def run(ctx):
     mdtypes = [aid for aid, a in facts.adts.items() for v in a["variants"] for fl in v["fields"] if "ManuallyDrop" in fl["ty"]]
     ctx.ob("C12.4", "no-manuallydrop-fields", "no type stores a ManuallyDrop", not mdtypes, "crate")
 
-    # ---- C12.5 clean EOF ends the parser silently
-    rnl = roles.inherent(facts, CC, "read_next_line")
-    ok = False
-    for bb in sorted(rnl.live_blocks()):
-        sw = switch_on_discr(rnl, bb)
-        if sw and sw[0].get("adt") == "std::option::Option" and origin_has_call(rnl.origin_place(sw[0]["pl"]), r"Bytes<.*> as std::iter::Iterator>::next$"):
-            rv, m, otherwise, rest = sw
-            nt = m.get("None", otherwise if "None" in rest else None)
-            outs = shared.eval_from(rnl, nt)
-            ok = bool(outs) and all(st.read_key((0,))[0] == "agg" and st.read_key((0,))[2] == "Err" for p, st in outs)
-    ctx.ob("C12.5", "%s|eof-is-error" % rnl.id, "end of stream while reading a line is reported as an error (no partial line is returned)", ok, "%s:%d" % (rnl.file, rnl.line))
+    # ---- C12.5 end of stream ends the parser silently
+    eof_rules(ctx, "C12.5")
     return {}
+
+
+def half_rules(ctx):
+    facts = ctx.facts
+    SM = S.smodel(facts)
+    rts_file = facts.adt(RTS)["file"]
+    same = lambda d: facts.fns[d].rec.get("local") and facts.fns[d].file == rts_file
+    ctors = [g for k, g in sorted(facts.local_fns.items()) if g.locals[0]["ty"] == "(%s, %s)" % (RTS, RTS)]
+    ctx.ob("C12.3", "halves|constructor", "one function splits a socket into its two halves", len(ctors) == 1, rts_file, str([g.id for g in ctors]))
+    if len(ctors) != 1:
+        return
+    rnew = ctors[0]
+    rdrop = method(facts, T_DROP, RTS, "drop")
+    fn = inline.inlined(facts, rnew.id, stop=lambda d: facts.fns[d].rec.get("local") and not same(d), extern_ok=Q.std_small)
+    fd = inline.inlined(facts, rdrop.id, stop=lambda d: facts.fns[d].rec.get("local") and (not same(d) or d.endswith("::shutdown")), extern_ok=Q.std_small)
+    ctx.touch(fn); ctx.touch(fd)
+    for g, bb, s in facts.constructions(RTS):
+        ctx.ob("C12.3", "rts-construct|%s" % g.id, "socket halves are built only by the splitting constructor (and its helpers)", g.file == rts_file, g.loc(bb))
+    halves = None
+    rets = [p for p in absint.explore(fn, 0) if p.end[0] == "return"]
+    vals = {repr(absint.deep(p.state, p.ret())) for p in rets}
+    if len(vals) == 1 and rets:
+        v = rets[0].ret()
+        if v[0] == "tuple" and len(v[1]) == 2:
+            halves = v[1]
+    ctx.ob("C12.3", "%s|two-halves" % rnew.id, "the constructor returns two halves, the same on every path", halves is not None, "%s:%d" % (rnew.file, rnew.line))
+    if halves is None:
+        return
+    want = ["Read", "Write"]
+    for i, h in enumerate(halves):
+        st = symex.Sym(fd)
+        st.write_key((1, "*"), h)
+        paths = [p for p in absint.explore(fd, 0, st) if p.end[0] == "return"]
+        ctx.paths += len(paths)
+        bad = []
+        for p in paths:
+            hows = []
+            for e in p.calls():
+                if e[2].endswith("::shutdown") and len(e[3]) > 1:
+                    hows.append(absint.variant_of(e[3][1]) or "?")
+            if hows != [want[i]]:
+                bad.append(hows)
+        ctx.ob("C12.3", "%s|half%d-shuts-%s" % (rdrop.id, i, want[i].lower()), "the destructor of the %s half returned by the constructor shuts down exactly the %s direction" % ("first (read)" if i == 0 else "second (write)", want[i].lower() + "ing"),
+               bool(paths) and not bad, "%s:%d" % (rdrop.file, rdrop.line), None if not bad else "shutdown calls per path: %s" % bad[:3])
+    # ClientConnection::new(write, read): the write half goes into the BufWriter/sink, the read half into the BufReader/source
+    a = SM.a
+    cc_ctor = sorted({g.id for g, bb, s in facts.constructions(CC)})
+    ctx.ob("C12.3", "connection|constructor", "one function builds a ClientConnection", len(cc_ctor) == 1, CC, str(cc_ctor))
+    if len(cc_ctor) == 1:
+        cc_new = facts.fn(cc_ctor[0])
+        for bb, t in a.calls():
+            if call_is(t, cc_new.id):
+                o0, o1 = a.origin(t["args"][0]), a.origin(t["args"][1])
+                s0, s1 = origin_str(o0), origin_str(o1)
+                ok = (".1" in s0 and ".0" in s1) or (origin_fields(o0) == {"1"} and origin_fields(o1) == {"0"})
+                ctx.ob("C12.3", "accept-thread|halves-to-connection", "the connection gets the write half as its writer and the read half as its reader", ok, a.loc(bb), "%s / %s" % (s0, s1))
+        bw = [(bb, t) for bb, t in cc_new.calls() if call_matches(t, r"BufWriter::<W>::with_capacity$|BufWriter::<W>::new$")]
+        br = [(bb, t) for bb, t in cc_new.calls() if call_matches(t, r"BufReader::<R>::with_capacity$|BufReader::<R>::new$")]
+        ok = len(bw) == 1 and len(br) == 1 and any(x == ("arg", 1) for x in origin_walk(cc_new.origin(bw[0][1]["args"][-1]))) and any(x == ("arg", 2) for x in origin_walk(cc_new.origin(br[0][1]["args"][-1])))
+        ctx.ob("C12.3", "%s|writer-is-first-arg" % cc_new.id, "the connection constructor wraps its first argument as the writer and its second as the reader", ok, "%s:%d" % (cc_new.file, cc_new.line))
+    # shutdown census
+    sdrop = method(facts, T_DROP, SERVER, "drop")
+    conn_file = facts.adt("connection::Connection")["file"] if "connection::Connection" in facts.adts else None
+    n = 0
+    for h, bb, t in facts.all_calls(lambda t: t.get("name") == "shutdown"):
+        n += 1
+        ok = h.file in (rts_file, conn_file) or h.id == sdrop.id or h.id.startswith(sdrop.id + "::")
+        ctx.ob("C12.3", "shutdown-site|%s" % h.id, "sockets are shut down only by the halves' destructor (and Server::drop's throw-away self-connection)", ok, h.loc(bb))
+    ctx.floor("C12.3 shutdown call sites", n, 3)
+
+
+def eof_rules(ctx, rule):
+    """end of stream while a request head is being read: the head reader reports an error, and next() then returns None without answering"""
+    facts = ctx.facts
+    PM = PR.pmodel(facts)
+    rd = PM.rd
+    seen = []
+    def on_call(bb, t, args, st):
+        n = call_name(t)
+        if re.search(r"std::io::Bytes<.*> as std::iter::Iterator>::next$", n):
+            seen.append("bytes")
+            return ("none",)
+        if re.search(r" as std::io::Read>::read$", n) or n == "std::io::Read::read":
+            seen.append("read")
+            return PR.Ok_(("const", 0, "0_usize", None))
+        if re.search(r" as std::io::BufRead>::fill_buf$", n) or n == "std::io::BufRead::fill_buf":
+            seen.append("fill_buf")
+            return PR.Ok_(("empty-slice",))
+        if re.search(r"<impl \[T\]>::(is_empty|len)$", n) and args:
+            a = args[0]
+            if a[0] == "ref":
+                a = st.read_key(a[1])
+            if a == ("empty-slice",):
+                return ("const", True, "true", None) if n.endswith("is_empty") else ("const", 0, "0_usize", None)
+        return None
+    def stop(bb, t, st):
+        if t["t"] == "call" and call_matches(t, r"request::new_request$"):
+            return "request-built"
+    paths = [p for p in absint.explore(rd, 0, None, on_call=on_call, stop=stop) if p.end[0] not in ("diverge", "resume", "terminate", "unreachable")]
+    ctx.paths += len(paths)
+    if not seen:
+        raise CheckerError("%s: the head reader does not obtain its bytes through Read::bytes()/Read::read (unrecognised reading style)" % rule)
+    errs = []
+    bad = []
+    for p in paths:
+        if p.end[0] == "return" and p.ret()[0] == "agg" and p.ret()[2] == "Err":
+            errs.append(p.ret()[3]["0"])
+        else:
+            bad.append(Q._ret_str(p))
+    ctx.ob(rule, "%s|eof-is-error" % PM.read_def, "end of stream while reading a request head is reported as an error (no partial line is returned, no request is built)", bool(paths) and not bad,
+           "%s:%d" % (rd.file, rd.line), None if not bad else str(bad[:3]))
+    # what next() does with that error: nothing is sent, the iterator ends
+    f = PM.nxt
+    n = 0
+    for ev in {repr(e): e for e in errs}.values():
+        ps = [p for p in PM.after_read(PR.Err_(ev)) if p.end[0] not in ("diverge", "resume", "terminate", "unreachable")]
+        for p in ps:
+            timed_out = None
+            for bb, c in p.conds:
+                if c and c[0] == "scalar" and isinstance(c[2], bool):
+                    consts = [x for x in absint.walk_terms(c[1]) if x and x[0] == "agg" and x[1] == "std::io::ErrorKind"]
+                    if any(x[2] == "TimedOut" for x in consts):
+                        v, val, neg = c[1], c[2], False
+                        while v[0] == "unop" and v[1] == "Not":
+                            v, neg = v[2], not neg
+                        is_ne = v[0] == "call" and v[1].endswith("::ne")
+                        timed_out = (val != neg) != is_ne
+            if timed_out:
+                continue
+            n += 1
+            sent = [short(e[2]) for e in p.calls() if re.search(r"raw_print|Write>::write|write_all", e[2])]
+            ok = p.end[0] == "return" and p.ret() == ("none",) and not sent
+            ctx.ob(rule, "%s|eof-ends-silently" % PM.cc_next.id, "after end of stream (or any read error other than a timeout) next() returns None and sends nothing", ok, "%s:%d" % (f.file, f.line),
+                   None if ok else "%s sent=%s" % (Q._ret_str(p), sent))
+    ctx.floor("%s eof paths in next()" % rule, n, 1)
